@@ -35,11 +35,30 @@ def run(ctx):
                 f"(Evt{e}, Sta{s}, requestor={r}, alt={a}): code does {got}, PS3.8 prescribes {x}",
                 ["fsm", e, s, r, a],
             )
+    # AE-6 decides on DATA: the Protocol-version field of the A-ASSOCIATE-RQ.  PS3.8 9.3.2: version 1 is bit 0; a
+    # request without bit 0 does not offer the version this implementation speaks and gets the A-ASSOCIATE-RJ (Sta13),
+    # one with exactly version 1 is indicated to the user (Sta3).  Boundary values of the 16-bit field:
+    std = ctx.lean([["fsm.expected", 6, 2, False, False], ["fsm.expected", 6, 2, False, True]])
+    for v in (0, 1, 2, 4, 0x0100, 0x8000, 0xFFFE):
+        got = canon(tr.execute("Evt6", "Sta2", False, False, version=v))
+        want = std[0] if v == 1 else std[1]
+        case = ["fsm-version", v]
+        ctx.case(case, nontrivial=True, kind="ae6-protocol-version:" + ("1" if v == 1 else "bit0-clear"))
+        if got != want:
+            ctx.fail(f"fsm:AE-6:protocol-version:{'accepted-without-bit-0' if v != 1 else 'version-1-refused'}",
+                     f"(Evt6, Sta2) with Protocol-version {v:#06x}: code does {got}, PS3.8 prescribes {want}", case)
     ctx.extra["table_entries"] = len(rows)
     ctx.exhaustive = True
 
 
 def replay(ctx, case):
+    if case["case"][0] == "fsm-version":
+        v = case["case"][1]
+        got = canon(tr.execute("Evt6", "Sta2", False, False, version=v))
+        want = ctx.lean([["fsm.expected", 6, 2, False, v != 1]])[0]
+        print("code :", got)
+        print("PS3.8:", want)
+        return 0 if got == want else 1
     _, e, s, r, a = case["case"]
     res = tr.execute(f"Evt{e}", f"Sta{s}", bool(r), bool(a))
     exp = ctx.lean([["fsm.expected", e, s, bool(r), bool(a)]])[0]
